@@ -904,6 +904,7 @@ func main() {
 	walOut := flag.String("wal", "", "output Lean file: translated WAL.Write")
 	kwayOut := flag.String("kway", "", "output Lean file: translated kway.merge")
 	codecOut := flag.String("codec", "", "output Lean file: translated Data.Encode")
+	typesOut := flag.String("types", "", "output Lean file: translated CompareKeys / IsSameKey / LCP")
 	flag.Parse()
 	if *locktable != "" {
 		genLockTable(*repo, *locktable)
@@ -940,6 +941,9 @@ func main() {
 	}
 	if *kwayOut != "" {
 		genKway(*repo, *kwayOut)
+	}
+	if *typesOut != "" {
+		genTypes(*repo, *typesOut)
 	}
 	if *codecOut != "" {
 		genCodec(*repo, *codecOut)
